@@ -1004,6 +1004,17 @@ def gen_more_shapes(repo):
     return shape_file('clastic/render/simple.py, clastic/application.py, clastic/middleware/stats.py', items)
 
 
+def gen_route_shape(repo):
+    """route.py: the assembly of the route regex and the converters that Model/RouteRx.v, Model/Match.v and
+    Proofs/ConvertProofs.v transcribe by hand"""
+    route = parse(repo, 'clastic/route.py')
+    items = [('COMPILE_PATH_PATTERN', skeleton_of(module_def(route, '_compile_path_pattern'))),
+             ('BUILD_CONVERTER', skeleton_of(module_def(route, 'build_converter')))]
+    br = find_class(route, 'BoundRoute')
+    items.append(('MATCH_PATH', skeleton_of(find_def(br.body, 'match_path'))))
+    return shape_file('clastic/route.py', items)
+
+
 GENERATORS = {
     'Footprint.v': gen_footprint,
     'MetaGen.v': gen_meta,
@@ -1018,6 +1029,7 @@ GENERATORS = {
     'Tables.v': gen_tables,
     'ReservoirGen.v': gen_reservoir,
     'DispatchShape.v': gen_dispatch_shape,
+    'RouteShape.v': gen_route_shape,
     'ChainShape.v': gen_chain_shape,
     'WorldShape.v': gen_world_shape,
     'MoreShapes.v': gen_more_shapes,
